@@ -403,13 +403,16 @@ def _scan_iterators(repo, skip):
 
 
 def _pretty_cap(repo):
-    """`const MAX_BNODE_NESTING: usize = N;` used by write_bnode -> N, else None"""
+    """`const MAX_BNODE_NESTING: usize = N;` that the code of _pretty.rs refers to -> N, else None.
+    HOW the constant bounds the nesting is not read off the text (a counter, the indentation, ...): that it
+    does, under every serializer configuration, is what the chain sites of the harness observe."""
     text = read(repo, "turtle/src/serializer/_pretty.rs")  # noqa: F821
     s = _sanitize(text, "turtle/src/serializer/_pretty.rs")
     m = re.search(r"\bconst\s+MAX_BNODE_NESTING\s*:\s*usize\s*=\s*(\d[\d_]*)\s*;", s)
     if not m:
         return None
-    if not re.search(r"self\s*\.\s*nesting\s*>=\s*MAX_BNODE_NESTING", s):
+    uses = [u for u in re.finditer(r"\bMAX_BNODE_NESTING\b", s) if not (m.start() <= u.start() < m.end())]
+    if not uses:
         return None
     return int(m.group(1).replace("_", ""))
 
